@@ -89,4 +89,30 @@ theorem sliceGet_eq_serial (ps : List Rat) (shape idx : List Nat) (hlen : shape.
         List.zip_nil_right, val, Nat.mul_zero, Nat.add_zero]
       rw [ih _ is hlen' hr', drop_take_getElem? _ _ _ _ hv]
 
+theorem zip_eq_range_map {α β : Type} (l : List α) (ps : List β) (h : l.length = ps.length) :
+    l.zip ps = (List.range l.length).filterMap fun s =>
+      match l[s]?, ps[s]? with
+      | some a, some b => some (a, b)
+      | _, _ => none := by
+  induction l generalizing ps with
+  | nil => simp
+  | cons a l ih =>
+    cases ps with
+    | nil => simp at h
+    | cons b ps =>
+      have h' : l.length = ps.length := by simpa using h
+      rw [List.zip_cons_cons, List.length_cons, List.range_succ_eq_map, List.filterMap_cons]
+      simp only [List.getElem?_cons_zero, List.filterMap_map]
+      congr 1
+      rw [ih ps h']
+      rfl
+
+theorem filterMap_congr' {α β : Type} (l : List α) (f g : α → Option β) (h : ∀ a ∈ l, f a = g a) :
+    l.filterMap f = l.filterMap g := by
+  induction l with
+  | nil => rfl
+  | cons a l ih =>
+    simp only [List.filterMap_cons, h a (by simp)]
+    rw [ih fun x hx => h x (by simp [hx])]
+
 end QM.C16
